@@ -324,7 +324,14 @@ class LessParser(object):
     def p_block_open_media_query(self, p):
         """ block_open                : media_query_decl brace_open
         """
-        p[0] = Identifier(p[1]).parse(self.scope)
+        p[0] = Identifier(p[1])
+        try:
+            p[0].parse(self.scope)
+        except SyntaxError as e:
+            # e.g. an unknown variable in the query: raised from a grammar
+            # action it would only start yacc's error recovery, which drops
+            # the block without a word
+            self.handle_error(e, p.lineno(2))
 
     def p_font_face_open(self, p):
         """ block_open                : css_font_face t_ws brace_open
